@@ -24,7 +24,13 @@ and fails with the patch; the touched packages' tests and the whole suite pass w
 patch). Patch, demonstration and notes are under `seeded/<id>/`; none is ever committed to
 `/repo`. `tools/seed_matrix.sh` applies each patch, runs the check of its property (quick
 tier, with a larger seed count for the properties whose defects need several elections) and
-reverts; the last column is what that run printed.
+reverts; the last column is what that run printed. Where the check of the property itself stays
+quiet the script tries the check named for that change in its `ALT` table — a change seeded
+against one property can be visible only through the oracle of another (a delete-range defect filed
+under C02 is a C12 state mismatch; a torn read of the coordinator's status record filed under C05
+needs the config-change histories of C18; a leader that applies an uncommitted tail, filed under C07,
+is caught by the C03 commit ledger). """ + str(len(rows)) + """ changes in four waves; a change that an accepted repair has
+since made harmless says so in the last column.
 
 | seed | file changed | change (first sentence of the author's summary) | reported by |
 |---|---|---|---|
